@@ -19,8 +19,15 @@ CollectEv == LET e == Log[l]
   /\ e.ev = "collect"
   /\ e.res.first = a.res /\ e.res.second = b.res /\ e.res.drawn = b.drawn
 
+(* size sweep: every size 0..600 and some large ones, every sized constructor; the     *)
+(* stream-fed collectors additionally report how many elements they drew               *)
+SizedEv == LET e == Log[l] IN
+  /\ e.ev = "sized"
+  /\ SizedOk(e.size, e.len)
+  /\ (e.drawn >= 0 => e.drawn = e.size)       \* one draw of the element generator per element
+
 TraceInit == l = 1
-TraceNext == l <= Len(Log) /\ l' = l + 1 /\ (Choice \/ CollectEv)
+TraceNext == l <= Len(Log) /\ l' = l + 1 /\ (Choice \/ CollectEv \/ SizedEv)
 TraceSpec == TraceInit /\ [][TraceNext]_l
 TraceAccepted ==
   LET d == TLCGet("stats").diameter IN
